@@ -1347,7 +1347,7 @@ namespace bloch::runtime {
     // initialiser) initialises that class first, so the value does not depend on the order
     // in which classes happen to be initialised.
     Value RuntimeEvaluator::staticSlot(RuntimeClass* owner, RuntimeField* field) {
-        if (owner->staticStorage[field->offset].type == Value::Type::Void)
+        if (!owner->staticInitStarted)
             initStaticFields(owner);
         return owner->staticStorage[field->offset];
     }
@@ -1355,6 +1355,7 @@ namespace bloch::runtime {
     void RuntimeEvaluator::initStaticFields(RuntimeClass* cls) {
         if (!cls)
             return;
+        cls->staticInitStarted = true;
         for (size_t i = 0; i < cls->staticFields.size(); ++i) {
             auto& field = cls->staticFields[i];
             auto& slot = cls->staticStorage[i];
